@@ -14,7 +14,18 @@ import (
 	ammtypes "github.com/elys-network/elys/x/amm/types"
 )
 
-var c01Denoms = map[string]int{USDC: 0, ATOM: 1, ELYS: 2}
+var c01Denoms = map[string]int{USDC: 0, ATOM: 1, ELYS: 2, WETH: 3}
+
+// model index of an amm pool: 0 the oracle pool uusdc/uatom, 1 the constant-product pool, 2 the second oracle pool uusdc/aweth
+func c01PoolIdx(m *Market, id uint64) int {
+	switch {
+	case id == m.OraclePool:
+		return 0
+	case m.OraclePool2 != 0 && id == m.OraclePool2:
+		return 2
+	}
+	return 1
+}
 
 type c01Tracer struct {
 	x        *lRun
@@ -29,10 +40,7 @@ type c01Tracer struct {
 func newC01Tracer(x *lRun) *c01Tracer {
 	c := &c01Tracer{x: x, poolIdx: map[string]int{}, treasury: map[string]int{}, revenue: map[string]int{}}
 	for _, p := range x.w.App.AmmKeeper.GetAllPool(x.w.QCtx()) {
-		i := 1
-		if p.PoolId == x.m.OraclePool {
-			i = 0
-		}
+		i := c01PoolIdx(x.m, p.PoolId)
 		c.poolIdx[p.Address] = i
 		c.treasury[p.RebalanceTreasury] = i
 		c.revenue[ammtypes.NewPoolRevenueAddress(p.PoolId).String()] = i
